@@ -69,6 +69,15 @@ def main():
         r = {'values': [], 'errors': []}
         try:
             h = build.capture()
+            # other configurations evaluated EARLIER in the same process (state shared between model or reward
+            # instances must not leak into this one)
+            for ps in case.get('prelude', []):
+                pc = build.coalescent(ps)
+                with warnings.catch_warnings():
+                    warnings.simplefilter('ignore')
+                    pc.tree_height.mean
+                    if ps.get('loci', 1) == 1:
+                        pc.sfs.mean
             coal = build.coalescent(case['spec'])
             r['lineage_pops'] = list(coal.lineage_config.pop_names)
             r['lineage_counts'] = [int(x) for x in coal.lineage_config.lineages]
